@@ -235,6 +235,10 @@ func (c05Driver) runLib(c *c05Case, texts map[string]string, names []string, o *
 // ---- yangentry.Parse on the simulated disk
 
 func (c05Driver) runYangentry(c *c05Case, texts map[string]string, names []string, o *core.Outcome) {
+	if !fsim.SeamComplete() {
+		o.Discard = "fs-seam-incomplete"
+		return
+	}
 	files := map[string]string{}
 	var mods []string
 	for _, n := range names {
